@@ -1498,3 +1498,67 @@ def rf129(run):
                           '`prbne`, which demand an INT operand, are rejected)' %
                           (mode, '/'.join(odd[0][1]) if odd else '?', odd[0][0] if odd else '?', want), line=f.line)
     return n
+
+
+# ---------------------------------------------------------------------------------------------
+# RF143: the scanner reads back the three-digit octal escapes the writer prints
+# ---------------------------------------------------------------------------------------------
+
+def rf143(run):
+    from lib import printexec as PE
+    rule = 'RF143'
+    run.rule(rule, 'scan_string, octal escape branch, executed abstractly on the input `\\\\0123…` and `\\\\012B` (the writer prints every '
+                   'non-printable byte as exactly three octal digits, RF103): the escape takes three digits — the value is 012 and the '
+                   'fourth character, digit or not, is left in the input.  A reader that takes a fourth digit merges a control byte with a '
+                   'following character \'0\'…\'7\'')
+    tu = run.tu('mir')
+    f = tu.func('scan_string')
+    run.functions_analysed.add(('mir', f.name))
+    sites = [x for x in f.walk() if x['k'] == 'IfStmt' and ('isdigit' in F.src(x['c'][0]) or '__ctype_b_loc' in F.src(x['c'][0]))
+             and "'8'" in F.src(x['c'][0])
+             and any(y['k'] == 'BinaryOperator' and y['op'] == '=' and F.src(F.strip(y['c'][0])) == 'ch_code' for y in F.walk(x['c'][1]))]
+
+    class Exec(PE.PrintExec):
+        # glibc's isdigit is a macro over __ctype_b_loc: `((*__ctype_b_loc ())[(int) (c)] & _ISdigit)`
+        def val(self, e, env):
+            e0 = F.strip(e)
+            if e0['k'] == 'BinaryOperator' and e0['op'] == '&' and '__ctype_b_loc' in F.src(e0):
+                subs = [y for y in F.walk(e0) if y['k'] == 'ArraySubscriptExpr']
+                if subs:
+                    v = self.val(subs[0]['c'][1], env)
+                    if isinstance(v, int):
+                        return int(48 <= v <= 57)
+            return super().val(e, env)
+    if not sites:
+        raise F.AnalysisBroken('scan_string: the octal escape branch was not found')
+    site = min(sites, key=lambda x: x['l'])
+    n = 0
+    for label, rest, left in (('\\0123', [ord('1'), ord('2'), ord('3'), ord('4')], ord('3')), ('\\012B', [ord('1'), ord('2'), ord('B'), ord('"')], ord('B')),
+                              ('\\01"', [ord('1'), ord('"'), ord('x')], ord('"'))):
+        stream = list(rest)
+
+        def getc(a, e, x):
+            return stream.pop(0) if stream else -1
+
+        def ungetc(a, e, x):
+            stream.insert(0, x.val(a[1], e))
+            return 1
+        acc = {'get_char': getc, 'unget_char': ungetc, 'isdigit': lambda a, e, x: int(48 <= (x.val(a[0], e) or 0) <= 57)}
+        ex = Exec(tu, {}, acc, {}, max_iter=12)
+        env = {'c': ord('0'), 'ch_code': 0, 'get_char': ('func', 'get_char'), 'unget_char': ('func', 'unget_char')}
+        try:
+            ex.run(site['c'][1], env)
+        except F.AnalysisBroken as e_:
+            raise F.AnalysisBroken('scan_string: octal escape branch not executable: %s' % e_)
+        val = env.get('c')
+        want_val = {'\\0123': 0o012, '\\012B': 0o012, '\\01"': 0o01}[label]
+        nxt = stream[0] if stream else None
+        ok = val == want_val and nxt == left
+        n += 1
+        run.ob(rule, (label,), ok, {'input': label, 'value read': val, 'expected': want_val, 'next character left': chr(nxt) if nxt else None})
+        if not ok:
+            run.violation(rule, f, 'octal escape %s' % label, 'for the input `%s` scan_string reads the escape as %s and leaves `%s` as the next '
+                          'character (expected value %d and `%s`): the writer prints exactly three octal digits, so a string with a control '
+                          'byte in front of a digit 0…7 is read back with other bytes' %
+                          (label, val, chr(nxt) if nxt else 'nothing', want_val, chr(left)), line=site['l'])
+    return n
